@@ -22,7 +22,8 @@ META = {
             "sequences; TLC checks it exhaustively for small bounds and exports seeded random histories (lists up "
             "to 3 with repeats, 14 host spellings incl. upper/mixed case, Forge FML/FORGE markers, TCPShield "
             "real-ip data, look-alike hosts, mixed-case configuration keys, registered subsets, servers re-registered "
-            "through the API under an upper-case name, up to 3 failures of "
+            "through the API under an upper-case name, servers that were unregistered while an earlier player of the same "
+            "proxy joined and registered again afterwards, up to 3 failures of "
             "kinds kick-during-login / kick-after-join / kick-after-join with a stalled switch in flight). Each is "
             "replayed on the live proxy configured through gate's YAML loader; TLC validates which backend received "
             "each attempt, the final state and that the final disconnect carries the last kick reason.",
@@ -73,6 +74,8 @@ def run(ctx):
     ctx.log("harness: %s" % json.dumps(s, sort_keys=True))
     if s.get("inconclusive", 0) * 20 > len(hists):
         raise vlib.ToolError("%d of %d replays were inconclusive: %s" % (s["inconclusive"], len(hists), s))
+    if not s.get("with_prelude_player"):
+        raise vlib.ToolError("no history with an earlier player and a registration change was replayed")
     if not s.get("end:connected") or not s.get("end:disconnected"):
         raise vlib.ToolError("replays never ended connected / never disconnected: vacuous")
     recs = vlib.read_ndjson(ctx.path("trace.ndjson"))
@@ -135,6 +138,9 @@ def classify(run, bi):
             and bad["server"] in (prev[0]["server"], prev[0]["inflight"]):
         # the failed / in-flight server is registered under another spelling of its listed name and is chosen again
         return "choice:excluded-server-chosen:registered-name-differs-in-case"
+    if bad["ev"] == "attempt" and reset.get("away_before") and reset.get("role") == "main":
+        return "choice:%s:after-earlier-player-joined-while-%d-listed-server(s)-were-unregistered:after[%s]" % (
+            src, len(reset["away_before"]), ",".join(prior))
     if bad["ev"] == "attempt":
         return "choice:%s:%s:after[%s]->%s" % (src, spelling, ",".join(prior), "unexpected-attempt")
     return "end:%s:%s:after[%s]->%s" % (src, spelling, ",".join(prior), bad["state"])
@@ -142,7 +148,7 @@ def classify(run, bi):
 
 def describe(run, bi):
     reset, bad = run[0], run[bi]
-    return ("vhost %r, forced %s=%s, try %s, registered %s (renamed %s): attempts so far %s; proxy did %s, not allowed by ServerChoice spec"
-            % (cps(reset["vh"]), cps(reset["forced"]["key"]), reset["forced"]["list"], reset["try"], reset["reg"], [x.upper() for x in reset.get("renamed", [])],
+    return ("vhost %r, forced %s=%s, try %s, registered %s (renamed %s, away while an earlier player joined %s): attempts so far %s; proxy did %s, not allowed by ServerChoice spec"
+            % (cps(reset["vh"]), cps(reset["forced"]["key"]), reset["forced"]["list"], reset["try"], reset["reg"], [x.upper() for x in reset.get("renamed", [])], reset.get("away_before", []),
                [(a["server"], a["fail"], a["inflight"]) for a in run[1:bi] if a["ev"] == "attempt"],
                {k: v for k, v in bad.items() if k in ("ev", "server", "fail", "state", "kicks", "text")}))
